@@ -1,4 +1,5 @@
 import SMV.Lemmas.Protocol
+import SMV.Lemmas.ProtocolFail
 /-!
 # C06 — Concurrent senders: mutual exclusion, exactly-once, nothing stranded
 
@@ -204,5 +205,28 @@ example : ∃ s, Reach false true s ∧ s.pc 0 = .processing ⟨0, 1⟩ ∧ s.pc
 example : ∃ s, Reach true false s ∧ s.log = [.beg ⟨0, 1⟩, .fin ⟨0, 1⟩, .beg ⟨1, 2⟩, .fin ⟨1, 2⟩] := by
   let ls : List Label := [.put 0 1, .put 1 2, .acqOk 1, .acqFail 0, .pop 1, .done 1, .pop 1, .done 1]
   exact ⟨(run? true false init ls).getD init, reach_run .init (ls := ls) rfl, rfl⟩
+
+end SMV.Protocol
+
+/-! ## With failing callbacks and cancelled drainers (`SMV/Lemmas/ProtocolFail.lean`)
+
+The property excludes the failure path from "exactly once" and "nothing stranded" (a failing callback clears the
+queue). What it does not exclude — and what the cancelled-sender probe of the check looks at on the real engine —
+is proved for the protocol extended by `fail` / `releaseF` steps, for every interleaving: -/
+namespace SMV.Protocol
+
+/-- **C06 (mutual exclusion, failures included).** -/
+theorem C06_mutual_exclusion_failures {fixed atomic} {x : SF} (h : ReachF fixed atomic x) : Mutex x.s :=
+  mutexF_inv h
+
+/-- **C06 (no overlap, failures included).** At every moment the log holds as many begin marks as end marks, plus
+one iff an event is in flight; logs grow by appending, so in every prefix of every reachable log a begin mark is
+followed by its end mark before the next begin mark. -/
+theorem C06_no_overlap_failures {fixed atomic} {x : SF} (h : ReachF fixed atomic x) : Balanced x.s :=
+  balancedF_inv h
+
+/-- **C06 (at most once, in order, failures included).** -/
+theorem C06_at_most_once_failures {fixed atomic} {x : SF} (h : ReachF fixed atomic x) : AtMostOnce x.s :=
+  atMostOnceF_inv h
 
 end SMV.Protocol
